@@ -72,6 +72,13 @@ type ZZHub struct {
 	Delivered []string
 	// Busy counts handlers that are inside a callback right now.
 	Busy int
+	// Gate: when Gated, resource handlers start a delivery only while Started < Allowed. The
+	// harness raises Allowed to script how far informers have got at each phase of a scenario
+	// (environment timing as an enumerated parameter instead of pre-emptions).
+	Gated   bool
+	Allowed int
+	Started int
+	Finished int
 	// InitialListExtra, when set, is called between the hub's LIST and the registration: a
 	// place for the harness to mutate the cluster inside the start-up window.
 	seq         int
@@ -142,12 +149,15 @@ func (h *ZZHub) factoryStart(_ *FactoryStore, ctx context.Context, informerId st
 	n := len(h.Regs)
 	vrt.GoNamed(fmt.Sprintf("informer-%d", n), func() {
 		for {
-			vrt.Wait("informer-deliver", func() bool { return len(reg.fifo) > 0 || reg.stopped })
-			if reg.stopped && len(reg.fifo) == 0 {
+			vrt.Wait("informer-deliver", func() bool {
+				return reg.stopped || (len(reg.fifo) > 0 && (!h.Gated || h.Started < h.Allowed))
+			})
+			if reg.stopped {
 				return
 			}
 			d := reg.fifo[0]
 			reg.fifo = reg.fifo[1:]
+			h.Started++
 			h.seq++
 			h.Delivered = append(h.Delivered, fmt.Sprintf("%d:%s:%s/%s", n, d.kind, d.obj.GetNamespace(), d.obj.GetName()))
 			h.Busy++
@@ -160,6 +170,7 @@ func (h *ZZHub) factoryStart(_ *FactoryStore, ctx context.Context, informerId st
 				handler.OnDelete(d.obj)
 			}
 			h.Busy--
+			h.Finished++
 			reg.Done++
 		}
 	})
@@ -268,6 +279,17 @@ func (h *ZZHub) NotifyNs(kind string, ns *v1.Namespace) {
 			}
 		}
 	}
+}
+
+// Queued returns the number of callbacks waiting in resource handlers' FIFOs.
+func (h *ZZHub) Queued() int {
+	n := 0
+	for _, r := range h.Regs {
+		if !r.stopped {
+			n += len(r.fifo)
+		}
+	}
+	return n
 }
 
 // Pending reports whether any handler still has undelivered callbacks.
